@@ -69,6 +69,50 @@ pub fn client_hello_bytes() -> Vec<u8> {
     out
 }
 
+/// Feeds received bytes to the response parser (or to the raw buffer once
+/// upgraded) and records every complete response.
+fn absorb(
+    data: &[u8],
+    eof: bool,
+    parser: &mut RespParser,
+    obs: &mut ConnObs,
+    plan: &ConnPlan,
+    world: &World,
+    conn: u32,
+) {
+    obs.rx_bytes += data.len() as u64;
+    if obs.upgraded {
+        obs.raw.extend_from_slice(data);
+        return;
+    }
+    parser.feed(data);
+    if eof {
+        parser.set_eof();
+    }
+    while obs.parse_err.is_none() && !obs.upgraded {
+        let k = obs.finals.len();
+        match parser.next(false) {
+            Ok(Some(resp)) => {
+                if resp.is_interim() {
+                    continue;
+                }
+                let nonce = plan.reqs.get(k).map(|r| r.nonce).unwrap_or(0);
+                let seq = world.log(Ev::RespDone, conn, nonce, u64::from(resp.status), resp.end_off);
+                let t = world.now_ms();
+                let upgraded = resp.status == 101;
+                obs.finals.push(RespObs { resp, seq_done: seq, t_done: t });
+                if upgraded {
+                    obs.upgraded = true;
+                    let rest = parser.take_rest();
+                    obs.raw.extend_from_slice(&rest);
+                }
+            }
+            Ok(None) => break,
+            Err(e) => obs.parse_err = Some(e),
+        }
+    }
+}
+
 pub async fn run_conn_tls(
     net: Net,
     world: World,
@@ -96,7 +140,9 @@ pub async fn run_conn_tls(
     obs.conn_id = Some(conn);
     let connector = tokio_rustls::TlsConnector::from(client_config());
     let name = rustls::pki_types::ServerName::try_from("sim").unwrap();
-    let hs = tokio::time::timeout(ms(90_000), connector.connect(name, end.clone())).await;
+    // A healthy client expects the handshake to make progress: the liveness
+    // bound applies however many other handshakes are stalled.
+    let hs = tokio::time::timeout(ms(crate::exec::LIVENESS_MS), connector.connect(name, end.clone())).await;
     let mut tls = match hs {
         Ok(Ok(t)) => t,
         Ok(Err(e)) => {
@@ -138,44 +184,44 @@ pub async fn run_conn_tls(
             }
             Step::AwaitResponses { count, max_ms } => {
                 let deadline = tokio::time::Instant::now() + ms(*max_ms);
-                while obs.finals.len() < *count && !obs.eof && obs.parse_err.is_none() {
-                    let r = tokio::time::timeout_at(deadline, tls.read(&mut buf)).await;
-                    match r {
+                while obs.finals.len() < *count && !obs.eof && obs.parse_err.is_none() && !obs.upgraded {
+                    match tokio::time::timeout_at(deadline, tls.read(&mut buf)).await {
                         Err(_) => break,
                         Ok(Ok(0)) => {
                             obs.eof = true;
-                            parser.set_eof();
+                            absorb(&[], true, &mut parser, &mut obs, &plan, &world, conn);
                         }
-                        Ok(Ok(n)) => {
-                            obs.rx_bytes += n as u64;
-                            parser.feed(&buf[..n]);
-                        }
+                        Ok(Ok(n)) => absorb(&buf[..n], false, &mut parser, &mut obs, &plan, &world, conn),
                         Ok(Err(e)) => {
                             // a TLS stream cut without close_notify reads as
                             // an error; to the HTTP layer it is an EOF
                             obs.read_err = Some(e.kind());
                             obs.eof = true;
-                            parser.set_eof();
+                            absorb(&[], true, &mut parser, &mut obs, &plan, &world, conn);
                         }
                     }
-                    loop {
-                        let k = obs.finals.len();
-                        match parser.next(false) {
-                            Ok(Some(resp)) => {
-                                if resp.is_interim() {
-                                    continue;
-                                }
-                                let nonce = plan.reqs.get(k).map(|r| r.nonce).unwrap_or(0);
-                                let seq = world.log(Ev::RespDone, conn, nonce, u64::from(resp.status), resp.end_off);
-                                let t = world.now_ms();
-                                obs.finals.push(RespObs { resp, seq_done: seq, t_done: t });
-                            }
-                            Ok(None) => break,
-                            Err(e) => {
-                                obs.parse_err = Some(e);
-                                break;
-                            }
+                }
+            }
+            Step::HalfClose => {
+                // close_notify + FIN; keep reading
+                let q = world.n_events();
+                let _ = tls.shutdown().await;
+                if obs.left == Left::No {
+                    obs.left = Left::HalfClose;
+                    obs.left_seq = Some(q);
+                }
+            }
+            Step::AwaitEof { max_ms } => {
+                let deadline = tokio::time::Instant::now() + ms(*max_ms);
+                while !obs.eof {
+                    match tokio::time::timeout_at(deadline, tls.read(&mut buf)).await {
+                        Err(_) => break,
+                        Ok(Ok(0)) | Ok(Err(_)) => {
+                            obs.eof = true;
+                            obs.eof_seq = Some(world.log(Ev::ClientEof, conn, 0, 0, 0));
+                            absorb(&[], true, &mut parser, &mut obs, &plan, &world, conn);
                         }
+                        Ok(Ok(n)) => absorb(&buf[..n], false, &mut parser, &mut obs, &plan, &world, conn),
                     }
                 }
             }
